@@ -1,10 +1,11 @@
+//go:build !verifwasm
+
 package hx
 
 import (
 	"fmt"
 	"os"
 	"strings"
-	"time"
 
 	"github.com/gdamore/tcell/v2"
 	"github.com/gdamore/tcell/v2/terminfo"
@@ -140,6 +141,3 @@ func (w *World) LibGoroutines() []*simrt.G {
 	}
 	return out
 }
-
-// Ms is a shorthand.
-func Ms(n int) time.Duration { return time.Duration(n) * time.Millisecond }
